@@ -1,11 +1,13 @@
 \* C20 nonce extraction as coded at the pinned commit (first Content-Security-Policy line only, policy lists not split): TLC must reject HtmlGetsExactlyOneScript.
 CONSTANTS
   UnsupportedRule = "pass"
+  HeadRule = "pass"
+  CtRule = "caseinsensitive"
   ParseRule = "scripting"
   CspRule = "firstline"
   LengthRule = "set"
   EmitCases = FALSE
 INIT Init
 NEXT Next
-INVARIANTS TypeOK PassThroughIsIdentity HtmlGetsExactlyOneScript DocumentOnlyAppendedTo LengthMatchesBody EncodingHeaderDescribesBody
+INVARIANTS TypeOK PassThroughIsIdentity HtmlGetsExactlyOneScript DocumentOnlyAppendedTo LengthMatchesBody EncodingHeaderDescribesBody HeadIsUntouched
 CHECK_DEADLOCK FALSE
